@@ -399,14 +399,24 @@ class GarbageCollector:
         The marker's payload names the protected path explicitly (it may be a
         data file, a manifest, or a manifest list). When the payload cannot be
         used - markers written by older versions carry none, and a marker may be
-        unreadable or damaged - only the marker's NAME is known, and the name is
-        "<basename of the protected file>.inflight" for a data file under data/
-        as well as for a manifest / manifest list under metadata/manifests/.
-        Every path the name can denote is protected: guessing "data/" alone left
-        the manifests of a commit in progress unprotected (fail closed).
+        unreadable or damaged - only the marker's KEY is known. The key is
+        "metadata/inflight/<table-relative path of the protected file>.inflight",
+        so the path is recovered from it exactly (a file in a sub-directory of
+        data/ was not covered by any guess made from its basename, and was
+        deleted while its unreadable marker was still there). Markers of older
+        versions are named "<basename of the protected file>.inflight", for a
+        data file under data/ as well as for a manifest / manifest list under
+        metadata/manifests/: every path such a name can denote is protected
+        (fail closed).
         """
         name = basename[: -len('.inflight')]
-        fallback = {f"data/{name}", f"metadata/manifests/{name}"}
+        prefix = INFLIGHT_PATH + "/"
+        keyed = marker_path[len(prefix):][: -len('.inflight')]
+        fallback = (
+            {keyed}
+            if keyed.startswith("data/") or keyed.startswith("metadata/")
+            else {f"data/{name}", f"metadata/manifests/{name}"}
+        )
         try:
             payload = json.loads(self.storage.read_file(marker_path).decode("utf-8"))
             target = payload.get("file_path")
